@@ -264,10 +264,20 @@ func (s *lockingStream) genReq(r *tr.Rng) *tr.Op {
 		unlocks = append(unlocks, fmt.Sprintf("%d|%x|%x|%x|%s", s.uid, s.pickTarget(r), r.Bytes(20), s.pickTok(r), amt(r)))
 		cls += "+unlock"
 	}
-	for i := r.Intn(2); i > 0 && r.Chance(60); i-- {
-		s.cid++
-		claims = append(claims, fmt.Sprintf("%d|%x|%x", s.cid, s.pickVal(r), r.Bytes(20)))
-		cls += "+claim"
+	if r.Chance(30) {
+		nc := 1
+		if r.Chance(35) {
+			nc = 2 + r.Intn(2) // several claims in one block, some for the same validator (paid once, then zero)
+		}
+		v := s.pickVal(r)
+		for i := 0; i < nc; i++ {
+			if i > 0 && r.Chance(40) {
+				v = s.pickVal(r)
+			}
+			s.cid++
+			claims = append(claims, fmt.Sprintf("%d|%x|%x", s.cid, v, r.Bytes(20)))
+		}
+		cls += fmt.Sprintf("+claim%d", nc)
 	}
 	if len(cls) > 80 {
 		cls = cls[:80]
@@ -349,7 +359,7 @@ func (s *lockingStream) genBegin(r *tr.Rng) *tr.Op {
 		evs = append(evs, fmt.Sprintf("%d|%x|%d|%d", kind, v.addr, eh, et))
 	}
 	return tr.NewOp(cls, "hook.lock.begin", "height", s.height, "time", s.now, "votes", tr.StrList(votes),
-		"maxage", fmt.Sprintf("%d|%d", s.maxAgeD, s.maxAgeB), "ev", tr.StrList(evs))
+		"maxage", fmt.Sprintf("%d|%d", s.maxAgeD, s.maxAgeB), "ev", tr.StrList(evs), "obs", "1")
 }
 
 // Exec watches for what would halt a real chain (a refused validator update, a failing hook): the
